@@ -118,6 +118,15 @@ def dc(x):
 # content-preserving history detours for the "functional" properties (C08-C20):
 # the object under test should not only ever be a freshly constructed one.
 
+def nodes_with_metadata(h):
+    """{node: metadata} from get_nodes(metadata=True), whose code returns a dict and whose
+    docstring promises a list of (node, metadata) tuples: both shapes are read."""
+    got = h.get_nodes(metadata=True)
+    if isinstance(got, dict):
+        return got
+    return {n: m for n, m in got}
+
+
 def fresh_label(nodes):
     """A label of the same kind as the existing ones that is not a node."""
     nodes = list(nodes)
